@@ -764,6 +764,10 @@ def run(model, rep, tier):
     rep.rule('R19.9', 'every name loaded in expression_v1.py and expression_v2.py resolves (symtable)')
     from rules import names as _names
     _names.check(model, rep, 'R19.9', ('expression_v1', 'expression_v2'), 100)
+    from rules import round4 as _r4
+    rep.rule('R19.10', 'v1: index-adding methods refuse indices that are free OR summed; every axis created in a loop gets its own unknown length')
+    _r4.check_v1_duplicate_guards(model, rep, 'R19.10')
+    _r4.check_v1_length_identity(model, rep, 'R19.10')
     rep.require('R19.1', 35)
     rep.require('R19.2', 20)
     rep.require('R19.3', 30)
